@@ -242,6 +242,7 @@ def showReply : Actor.Reply → String
   | .entry none => "none"
   | .entries es => showEntries es
   | .message => "ok"
+  | .syncReply m => "reply " ++ (match m with | some m => showMessage m | none => "none")
   | .state sync subs handles => "state " ++ showBool sync ++ " " ++ toString subs ++ " " ++ toString handles
   | .secret raw => "secret " ++ raw.toHex
   | .errNotOpen => "err:not-open"
@@ -276,6 +277,7 @@ def parseAction? : List String → Option Actor.Action
     pure (.getExact (← Bytes.ofHex ns) (← Bytes.ofHex au) (← Bytes.ofHex key) (← parseBool? incl))
   | ["getmany", ns] => do pure (.getMany (← Bytes.ofHex ns))
   | ["syncinit", ns] => do pure (.syncInitial (← Bytes.ofHex ns))
+  | ["syncproc", ns, now, msg] => do pure (.syncProcess (← Bytes.ofHex ns) (← parseNat? now) (← parseMessage? msg))
   | ["state", ns] => do pure (.getState (← Bytes.ofHex ns))
   | ["drop", ns] => do pure (.dropReplica (← Bytes.ofHex ns))
   | ["import", ns, kind, raw] => do pure (.importNamespace (← Bytes.ofHex ns) (← parseNat? kind) (← Bytes.ofHex raw))
